@@ -139,6 +139,14 @@ example : EnvOK (envOf "doc" dA tblA) ∧ inD02 (envOf "doc" dA tblA) .class_ {}
   ⟨envOf_ok _ _ _ (by decide), by decide, by decide⟩
 
 set_option maxRecDepth 8000 in
+example : inD02 (envOf "doc" dA tblA) .pydantic { style := .numpydoc, emitDefaultDoc := true } irA = true ∧
+    docHyp (envOf "doc" dA tblA) .pydantic { style := .numpydoc, emitDefaultDoc := true } irA = true := by decide
+
+set_option maxRecDepth 8000 in
+/-- the conclusion on that instance, evaluated: all eight attributes and the return entry come back -/
+example : roundTrip (envOf "doc" dA tblA) .class_ {} irA = .ok irA.view := by decide
+
+set_option maxRecDepth 8000 in
 /-- non-vacuity of `C02_function`, with the types in the docstring, positional parameters and a `self` receiver -/
 example : inD02 (envOf "doc" dAfn tblA) .function { typeAnnotations := false, kwOnly := false } { irA with type := some "self" } = true ∧
     docHyp (envOf "doc" dAfn tblA) .function { typeAnnotations := false, kwOnly := false } { irA with type := some "self" } = true := by decide
